@@ -73,3 +73,23 @@ partial def loop (step : String → String) : IO Unit := do
   stdout.flush
 
 end Drv
+
+namespace Drv
+
+/-- stateful variant of `loop`: `step` threads a state through the lines -/
+partial def loopState {σ : Type} (init : σ) (step : σ → String → σ × String) : IO Unit := do
+  let stdin ← IO.getStdin
+  let stdout ← IO.getStdout
+  let rec go (s : σ) : IO Unit := do
+    let line ← stdin.getLine
+    if line.isEmpty then return ()
+    let l := (line.splitOn "\n").headD ""
+    let (s', out) := step s l
+    stdout.putStrLn out
+    go s'
+  go init
+  stdout.flush
+
+def showMask (m : List Bool) : String := String.ofList (m.map fun b => if b then '1' else '0')
+
+end Drv
